@@ -32,7 +32,13 @@ fn main() {
   w("ts_parse_boundaries", || { for s in ["0000-01-01T00:00:00Z", "9999-12-31T23:59:59Z", "9999-12-31T23:59:59.999999999Z", "0000-01-01T23:59:00+23:59", "9999-12-31T00:00:00-23:59", "2020-02-29T12:00:00.5+05:30"] { parse_total(s)?; } Ok(()) });
   w("ts_parse_truncates", || {
     let t = Timestamp::parse("2020-01-01T00:00:00.999999999+01:00").map_err(|e| e.to_string())?;
-    if t.to_unix() == 1577833200 { Ok(()) } else { Err(format!("unix {}", t.to_unix())) }
+    if t.to_unix() != 1577833200 { return Err(format!("unix {}", t.to_unix())); }
+    for s in ["2020-01-01T00:00:00.999999999+01:00", "1980-01-01T12:34:56.7891Z", "1937-01-01T12:00:27.000001+00:20"] {
+      let t = Timestamp::parse(s).map_err(|e| e.to_string())?;
+      let canon = Timestamp::from_unix(t.to_unix()).map_err(|e| e.to_string())?;
+      if t != canon || t.to_rfc3339() != canon.to_rfc3339() { return Err(format!("parse({s}) = {} is not a whole-second instant ({})", t.to_rfc3339(), canon.to_rfc3339())); }
+    }
+    Ok(())
   });
   w("ts_from_unix_window", || {
     for (s, ok) in [(MIN, true), (MAX, true), (MIN - 1, false), (MAX + 1, false), (0, true), (i64::MAX, false), (i64::MIN, false)] {
